@@ -36,6 +36,9 @@ type c18Fn struct {
 	panics   bool
 	panicArg bool // every panic(x) has x = the error result of a resolved call
 	calls    []string
+	// a pure panic helper (`func must(resp *Response, err error) *Response`): every panic(x) in it has
+	// x = its own parameter number panicParam (of type error); -1 otherwise
+	panicParam int
 }
 
 type c18TypeInfo struct {
@@ -145,7 +148,7 @@ func c18Entry(c *ctx) (string, error) {
 				if dd.Body == nil {
 					continue
 				}
-				fn := &c18Fn{decl: dd}
+				fn := &c18Fn{decl: dd, panicParam: -1}
 				if dd.Recv != nil && len(dd.Recv.List) == 1 {
 					fn.recv = c18TypeName(dd.Recv.List[0].Type)
 					fn.key = fn.recv + "." + dd.Name.Name
@@ -209,8 +212,47 @@ func c18Entry(c *ctx) (string, error) {
 			}
 		}
 	}
+	// pass 1b: pure panic helpers
+	for _, fn := range ti.fns {
+		var params []string
+		var ptypes []string
+		for _, p := range fn.decl.Type.Params.List {
+			for _, nm := range p.Names {
+				params = append(params, nm.Name)
+				ptypes = append(ptypes, c18TypeName(p.Type))
+			}
+		}
+		idx, ok, any := -1, true, false
+		ast.Inspect(fn.decl.Body, func(n ast.Node) bool {
+			if ce, isCall := n.(*ast.CallExpr); isCall {
+				if id, isID := ce.Fun.(*ast.Ident); isID && id.Name == "panic" && len(ce.Args) == 1 {
+					any = true
+					a, isArgID := ce.Args[0].(*ast.Ident)
+					found := -1
+					if isArgID {
+						for i, p := range params {
+							if p == a.Name && ptypes[i] == "error" {
+								found = i
+							}
+						}
+					}
+					if found < 0 || (idx >= 0 && idx != found) {
+						ok = false
+					}
+					idx = found
+				}
+			}
+			return true
+		})
+		if any && ok {
+			fn.panicParam = idx
+		}
+	}
 	// pass 2: bodies
 	for _, fn := range ti.fns {
+		if fn.panicParam >= 0 {
+			continue // a helper: its panic is attributed to its callers
+		}
 		env := map[string]string{}
 		dd := fn.decl
 		if dd.Recv != nil {
@@ -238,6 +280,26 @@ func c18Entry(c *ctx) (string, error) {
 		from := map[string]origin{}
 		seen := map[string]bool{}
 		var panicArgs []ast.Expr
+		var helperPanics []bool
+		// "invokes the error hook" by meaning: the body READS a selector `.onError` (to call it, to
+		// test it, or to put it in a local that it calls) — writing it (the OnError setter) does not count
+		written := map[*ast.SelectorExpr]bool{}
+		ast.Inspect(dd.Body, func(n ast.Node) bool {
+			if as, ok := n.(*ast.AssignStmt); ok {
+				for _, l := range as.Lhs {
+					if sel, ok := l.(*ast.SelectorExpr); ok {
+						written[sel] = true
+					}
+				}
+			}
+			return true
+		})
+		ast.Inspect(dd.Body, func(n ast.Node) bool {
+			if sel, ok := n.(*ast.SelectorExpr); ok && sel.Sel.Name == "onError" && !written[sel] {
+				fn.hook = true
+			}
+			return true
+		})
 		ast.Inspect(dd.Body, func(n ast.Node) bool {
 			switch x := n.(type) {
 			case *ast.AssignStmt:
@@ -275,17 +337,44 @@ func c18Entry(c *ctx) (string, error) {
 					fn.panics = true
 					panicArgs = append(panicArgs, x.Args[0])
 				}
-				if sel, ok := x.Fun.(*ast.SelectorExpr); ok && sel.Sel.Name == "onError" {
-					fn.hook = true
-				}
 				if k := ti.resolve(x, env); k != "" && !seen[k] {
 					seen[k] = true
 					fn.calls = append(fn.calls, k)
 				}
+				// a call of a pure panic helper: this function panics, with the argument it passes
+				if k := ti.resolve(x, env); k != "" && ti.fns[k].panicParam >= 0 {
+					fn.panics = true
+					pi := ti.fns[k].panicParam
+					good := false
+					if len(x.Args) == 1 { // must(r.Get(url)): the results of a call forwarded as arguments
+						if inner, ok := x.Args[0].(*ast.CallExpr); ok {
+							if ik := ti.resolve(inner, env); ik != "" {
+								if rs := ti.resultTypes(ik); pi < len(rs) && len(rs) > 1 && rs[pi] == "error" {
+									good = true
+								}
+							}
+						}
+					}
+					if !good && pi < len(x.Args) {
+						if id, ok := x.Args[pi].(*ast.Ident); ok {
+							if o, ok := from[id.Name]; ok {
+								if rs := ti.resultTypes(o.callee); o.index < len(rs) && rs[o.index] == "error" {
+									good = true
+								}
+							}
+						}
+					}
+					helperPanics = append(helperPanics, good)
+				}
 			}
 			return true
 		})
-		fn.panicArg = len(panicArgs) > 0
+		fn.panicArg = len(panicArgs) > 0 || len(helperPanics) > 0
+		for _, g := range helperPanics {
+			if !g {
+				fn.panicArg = false
+			}
+		}
 		for _, a := range panicArgs {
 			id, ok := a.(*ast.Ident)
 			if !ok {
